@@ -3,10 +3,15 @@
 package client
 
 import (
+	"context"
+	"crypto/tls"
+	"io"
 	"net"
 	"time"
 
+	"github.com/fatedier/frp/client/proxy"
 	"github.com/fatedier/frp/client/visitor"
+	v1 "github.com/fatedier/frp/pkg/config/v1"
 	"github.com/fatedier/frp/pkg/msg"
 	"github.com/fatedier/frp/pkg/util/wait"
 	"github.com/fatedier/frp/verif"
@@ -19,8 +24,23 @@ import (
 //verif:contract (~/client.Connector).Close
 //verif:trusted
 //verif:modifies *
-//verif:preserves H.client.Control. H.client.SessionContext. ChClosed@H.client.Control. H.client.visitor.Manager. ChClosed@H.client.visitor.Manager. H.client.proxy.Manager. H.client.proxy.Wrapper. ChClosed@H.client.proxy.Wrapper.
+//verif:preserves H.client.Control. H.client.SessionContext. H.client.Service. ChClosed@H.client.Control. H.client.visitor.Manager. ChClosed@H.client.visitor.Manager. H.client.proxy.Manager. H.client.proxy.Wrapper. ChClosed@H.client.proxy.Wrapper. H.pkg.config.v1. H.pkg.msg.
 func verif_Connector_Close(c Connector) { _ = c.Close() }
+
+//verif:contract (~/client.Connector).Open
+//verif:trusted
+//verif:modifies *
+//verif:preserves H.client.Control. H.client.SessionContext. H.client.Service. ChClosed@H.client.Control. H.client.visitor.Manager. ChClosed@H.client.visitor.Manager. H.client.proxy.Manager. H.client.proxy.Wrapper. ChClosed@H.client.proxy.Wrapper. H.pkg.config.v1. H.pkg.msg.
+func verif_Connector_Open(c Connector) { _ = c.Open() }
+
+//verif:contract (~/client.Connector).Connect
+//verif:trusted
+//verif:modifies *
+//verif:preserves H.client.Control. H.client.SessionContext. H.client.Service. ChClosed@H.client.Control. H.client.visitor.Manager. ChClosed@H.client.visitor.Manager. H.client.proxy.Manager. H.client.proxy.Wrapper. ChClosed@H.client.proxy.Wrapper. H.pkg.config.v1. H.pkg.msg.
+func verif_Connector_Connect(c Connector) {
+	conn, err := c.Connect()
+	verif.Ensures(err != nil || conn != nil, "connection_or_error")
+}
 
 // ---------------------------------------------------------------- C14: the client's side of session liveness
 
@@ -121,7 +141,7 @@ func verif_client_closeSession(ctl *Control) {
 //verif:contract (*~/client.Control).worker
 //verif:props C14 C19
 func verif_client_worker(ctl *Control) {
-	verif.Requires(ctl.doneCh != nil && !verif.Closed(ctl.doneCh) && visitor.VerifManagerOK(ctl.vm), "session_open_managers_built")
+	verif.Requires(VerifControlOK(ctl), "session_open_managers_built")
 	verif.ResetEvents()
 	ctl.worker()
 	verif.Ensures(verif.Closed(ctl.doneCh), "end_of_session_announced")
@@ -194,5 +214,125 @@ func verif_client_handleReqWorkConn(ctl *Control, m msg.Message) {
 		verif.Ensures(verif.Same(verif.NthArg[any]("proxy.Manager).HandleWorkConn", 0, 2), any(verif.Ret[net.Conn]("Control).connectServer", 0))), "the_new_connection_is_dispatched")
 	} else if verif.Called("Control).connectServer") && verif.RetErr("Control).connectServer", 1) == nil {
 		verif.Ensures(verif.CalledWith("Conn).Close", 0, verif.Ret[net.Conn]("Control).connectServer", 0)), "failed_handshake_closes_the_connection")
+	}
+}
+
+// ---------------------------------------------------------------- C05: the client side of transport protection
+
+// realConnect: with TLS enabled (always for wss) the connection is dialled with
+// the TLS configuration built from the configured certificate, key, trusted CA
+// and server name (the server address when no name is configured) - so "a
+// client given a trusted CA and server name refuses a server that presents
+// another identity" (NewClientTLSConfig) - and with no other TLS configuration;
+// without TLS no TLS configuration is handed to the dialler.
+//
+//verif:contract (*~/client.defaultConnectorImpl).realConnect
+//verif:props C05
+func verif_client_realConnect(c *defaultConnectorImpl) {
+	verif.Requires(c.cfg != nil, "constructed_by_NewConnector")
+	t := c.cfg.Transport
+	enabled := (t.TLS.Enable != nil && *t.TLS.Enable) || t.Protocol == "wss"
+	sn := t.TLS.ServerName
+	if sn == "" {
+		sn = c.cfg.ServerAddr
+	}
+	verif.ResetEvents()
+	conn, err := c.realConnect()
+	const evCfg = "transport.NewClientTLSConfig"
+	verif.Ensures(verif.Called(evCfg) == enabled, "tls_configuration_built_iff_enabled")
+	if err == nil && conn != nil {
+		if enabled {
+			verif.Ensures(verif.RetErr(evCfg, 1) == nil, "dialled_only_with_a_valid_tls_configuration")
+			verif.Ensures(verif.CalledWith(evCfg, 0, t.TLS.CertFile) && verif.CalledWith(evCfg, 1, t.TLS.KeyFile) && verif.CalledWith(evCfg, 2, t.TLS.TrustedCaFile) && verif.CalledWith(evCfg, 3, sn), "built_from_the_configured_identity_material")
+			cfg := verif.Ret[*tls.Config](evCfg, 0)
+			if t.Protocol == "wss" {
+				verif.Ensures(verif.CalledWith("golib/net.WithTLSConfigAndPriority", 1, cfg), "dialler_uses_that_configuration")
+			} else {
+				verif.Ensures(verif.CalledWith("golib/net.WithTLSConfig", 0, cfg), "dialler_uses_that_configuration")
+			}
+		} else {
+			verif.Ensures(!verif.Called("golib/net.WithTLSConfigAndPriority") && verif.CalledWith("golib/net.WithTLSConfig", 0, (*tls.Config)(nil)), "no_tls_configuration_without_tls")
+		}
+	}
+}
+
+// VerifControlOK: the control has been built by NewControl and its session has
+// not ended.
+//
+//verif:pure
+func VerifControlOK(ctl *Control) bool {
+	return VerifControlBuilt(ctl) && !verif.Closed(ctl.doneCh)
+}
+
+// VerifControlBuilt: the control has been built by NewControl (its session may
+// have ended since).
+//
+//verif:pure
+func VerifControlBuilt(ctl *Control) bool {
+	return ctl != nil && proxy.VerifManagerOK(ctl.pm) && visitor.VerifManagerOK(ctl.vm) && ctl.doneCh != nil && ctl.sessionCtx != nil
+}
+
+
+// Run starts the session worker and brings up the configured proxies and
+// visitors; GracefulClose stops them and closes the session.
+//
+//verif:contract (*~/client.Control).Run
+//verif:props C19 C14
+func verif_client_Run(ctl *Control, proxyCfgs []v1.ProxyConfigurer, visitorCfgs []v1.VisitorConfigurer) {
+	verif.Requires(VerifControlOK(ctl), "built_by_NewControl")
+	verif.ResetEvents()
+	ctl.Run(proxyCfgs, visitorCfgs)
+	verif.Ensures(verif.Called("go:(*github.com/fatedier/frp/client.Control).worker") && verif.CalledWith("proxy.Manager).UpdateAll", 0, ctl.pm) && verif.CalledWith("visitor.Manager).UpdateAll", 0, ctl.vm), "worker_started_configuration_applied")
+}
+
+//verif:contract (*~/client.Control).GracefulClose
+//verif:props C19 C14
+func verif_client_GracefulClose(ctl *Control, d time.Duration) {
+	verif.Requires(VerifControlBuilt(ctl), "built_by_NewControl")
+	verif.ResetEvents()
+	_ = ctl.GracefulClose(d)
+	verif.Ensures(verif.CalledBefore("proxy.Manager).Close", "Control).closeSession") && verif.CalledBefore("visitor.Manager).Close", "Control).closeSession"), "proxies_and_visitors_stopped_before_the_session_closes")
+}
+
+// login: a connection and its connector, or an error (then the connector that
+// was opened has been closed again).
+//
+//verif:contract (*~/client.Service).login
+//verif:props C14 C05
+func verif_client_login(svr *Service) {
+	verif.Requires(svr.common != nil && svr.authSetter != nil, "constructed_by_NewService")
+	verif.ResetEvents()
+	conn, connector, err := svr.login()
+	if err == nil {
+		verif.Ensures(conn != nil && connector != nil, "connection_and_connector")
+		verif.Ensures(verif.Called("Setter).SetLogin") && verif.RetErr("Setter).SetLogin", 0) == nil && verif.CalledBefore("Setter).SetLogin", "msg.WriteMsg"), "login_signed_before_it_is_sent")
+	} else if verif.Called("Connector).Open") && verif.RetErr("Connector).Open", 0) == nil {
+		verif.Ensures(verif.Called("Connector).Close"), "failed_login_closes_the_connector")
+	}
+}
+
+// NewControl (client): the control dispatcher speaks through the token-keyed
+// cipher stream around the session's connection iff the session asks for it;
+// loopLoginUntilSuccess asks for it for every session except ssh-tunnel
+// virtual clients (which run inside the server process).
+//
+//verif:contract ~/client.NewControl
+//verif:props C05
+func verif_client_NewControl(ctx context.Context, sessionCtx *SessionContext) {
+	verif.Requires(sessionCtx != nil && sessionCtx.Common != nil, "session_context_present")
+	enc, conn, token := sessionCtx.ConnEncrypted, sessionCtx.Conn, sessionCtx.Common.Auth.Token
+	verif.ResetEvents()
+	ctl, err := NewControl(ctx, sessionCtx)
+	const evCrypto, evDisp = "net.NewCryptoReadWriter", "msg.NewDispatcher"
+	if err == nil {
+		verif.Ensures(ctl != nil && verif.Called(evCrypto) == enc && verif.CallCount(evDisp) == 1, "cipher_stream_iff_requested")
+		verif.Ensures(VerifControlOK(ctl) && ctl.sessionCtx == sessionCtx, "managers_built_session_open")
+		verif.Ensures(sessionCtx.ConnEncrypted == enc && verif.Same(sessionCtx.Conn, conn), "session_context_unchanged")
+		if enc {
+			verif.Ensures(verif.Same(verif.NthArg[any](evCrypto, 0, 0), any(conn)) && verif.CalledWith(evCrypto, 1, []byte(token)), "cipher_keyed_by_the_token_around_the_session_connection")
+			verif.Ensures(verif.Same(verif.NthArg[any](evDisp, 0, 0), any(verif.Ret[io.ReadWriter](evCrypto, 0))), "dispatcher_speaks_through_the_cipher_stream")
+		} else {
+			verif.Ensures(verif.Same(verif.NthArg[any](evDisp, 0, 0), any(conn)), "dispatcher_speaks_on_the_session_connection")
+		}
 	}
 }
